@@ -18,7 +18,7 @@
     NuclearNorm.prox (on svdS)        → `nuclearSvProx`
   scico/functional/_indicator.py
     NonNegativeIndicator.prox         → `nonnegProx`
-    L2BallIndicator.prox              → `l2ballProx` (the projection, documented behaviour)
+    L2BallIndicator.prox              → `l2ballProx` (`v * (r / max(‖v‖, r))`, the code after fix b3feb73)
                                         `l2ballProxPinned` (what the pinned tree computed: r·v/‖v‖ always)
   scico/functional/_dist.py
     SetDistance.prox                  → `setDistProx`   (projection value `y = proj v` is an input)
@@ -211,11 +211,11 @@ def huberNonsepProx (delta : α) (v : Vec α n) (lam : α) : Vec α n :=
   let den := maxP (norm2 v) (delta * (1 + lam))
   fun i => (1 - (delta * lam) / den) * v i
 
-/-- projection onto the l2 ball of radius `r` (documented behaviour of `L2BallIndicator.prox`
-    after the repair: points of the ball are left alone) -/
+/-- `L2BallIndicator.prox` (after repo commit b3feb73): `v * (radius / maximum(norm(v), radius))`,
+    the projection onto the ball of radius `r > 0` -/
 def l2ballProx (r : α) (v : Vec α n) : Vec α n :=
   let nv := norm2 v
-  if r < nv then fun i => r * v i / nv else v
+  fun i => v i * (r / maxP nv r)
 
 /-- what the pinned tree computed: `radius * v / norm(v)` for every `v` -/
 def l2ballProxPinned (r : α) (v : Vec α n) : Vec α n :=
